@@ -27,3 +27,14 @@ def extra(tier, seed):
     from pyvc.bounded import run_native
     return [run_native('C01:bounded:per-class-value-and-signature', 'c01_replay.py', [],
                        bound='23 fixed-arity node classes x 6 operand pairs: Python value against the defining equation, signature line positions against ENGINE-SPEC')]
+
+
+_extra0 = extra
+
+
+def extra(tier, seed):
+    from pyvc.bounded import run_native
+    out = _extra0(tier, seed)
+    out.append(run_native('C01:bounded:engine-conformance', 'c01_engine_conformance.py', [tier, str(seed)],
+                          bound='see the harness bound string: 44 operator kinds over {free Beta, fixed Beta, Variable, Numeric}, depth <= 2 (3), 5 (9) grid points, sharing, side-by-side, name order', timeout=1500))
+    return out
